@@ -1560,6 +1560,15 @@ def append_scenes(iterable, common=None, base_frame="world"):
             # geometry is placed relative to the base frame of its scene
             # which corresponds to the base frame of the result
             map_node[s.graph.base_frame] = base_frame
+            if base_frame in s.graph.nodes:
+                # another node of this scene has the name of the base frame
+                # of the result, i.e. `world` below the `world_I` of a
+                # re-zeroed scene: it is not the base frame so rename it
+                map_node[base_frame] = unique_name(
+                    start=f"{base_frame}_{len(edges)}",
+                    contains=set(s.graph.nodes).union(consumed),
+                )
+                consumed.add(map_node[base_frame])
         # the nodes used in this scene
         current = set()
         for a, b, attr in s.graph.to_edgelist():
